@@ -1,0 +1,80 @@
+//! Verification hooks, compiled only with the `verif_hooks` feature.
+//!
+//! A thread-local event sink: when switched on by a test harness, `fn_graph`
+//! appends one JSON object (as a `String`) per internal step at the points
+//! where that step takes effect. With the sink off (the default) `emit` does
+//! nothing, and without the feature none of this is compiled.
+
+use std::cell::{Cell, RefCell};
+
+thread_local! {
+    static SINK: RefCell<Option<Vec<String>>> = const { RefCell::new(None) };
+    static RANK_POPS: Cell<u64> = const { Cell::new(0) };
+}
+
+/// Maximum number of buffered events; further events are counted, not kept.
+const SINK_CAP: usize = 1 << 20;
+
+/// Switches the sink on (and clears it).
+pub fn start() {
+    SINK.with(|sink| *sink.borrow_mut() = Some(Vec::new()));
+}
+
+/// Switches the sink off, discarding buffered events.
+pub fn stop() {
+    SINK.with(|sink| *sink.borrow_mut() = None);
+}
+
+/// Takes the buffered events, leaving the sink on if it was on.
+pub fn drain() -> Vec<String> {
+    SINK.with(|sink| match sink.borrow_mut().as_mut() {
+        Some(events) => std::mem::take(events),
+        None => Vec::new(),
+    })
+}
+
+/// Number of queue pops performed by the most recent rank calculation on this
+/// thread.
+pub fn rank_pops() -> u64 {
+    RANK_POPS.with(Cell::get)
+}
+
+pub(crate) fn rank_pops_reset() {
+    RANK_POPS.with(|c| c.set(0));
+}
+
+pub(crate) fn rank_pops_inc() -> u64 {
+    RANK_POPS.with(|c| {
+        c.set(c.get() + 1);
+        c.get()
+    })
+}
+
+/// Appends an event if the sink is on.
+pub(crate) fn emit(event: impl FnOnce() -> String) {
+    SINK.with(|sink| {
+        if let Some(events) = sink.borrow_mut().as_mut() {
+            if events.len() < SINK_CAP {
+                events.push(event());
+            }
+        }
+    });
+}
+
+/// Formats ids as a JSON array of 1-based indices.
+pub(crate) fn ids(ids: impl IntoIterator<Item = usize>) -> String {
+    nums(ids.into_iter().map(|id| id + 1))
+}
+
+/// Formats numbers as a JSON array.
+pub(crate) fn nums(nums: impl IntoIterator<Item = usize>) -> String {
+    let mut s = String::from("[");
+    for (i, num) in nums.into_iter().enumerate() {
+        if i > 0 {
+            s.push(',');
+        }
+        s.push_str(&num.to_string());
+    }
+    s.push(']');
+    s
+}
